@@ -50,6 +50,7 @@ def parseAct (s : String) : Option Act :=
     | some k =>
       if c = 'e' then some (.emit k)
       else if c = 'b' then some (.emit k)   -- marker; the real handler also wraps c.Resp transparently
+      else if c = 'k' then some (.emit k)   -- marker; the real handler also derives a request context it cancels on return
       else if c = 'q' then some (.emit k)   -- marker; the real handler also records an error (no OnError handler is installed)
       else if c = 's' then some (.abortWithStatus k)
       else if c = 'x' then some (.abortWithMsg k)
